@@ -39,6 +39,16 @@ Theorem C20_live_bytes_bounded :
 Proof. exact live_bytes_bounded. Qed.
 Print Assumptions C20_live_bytes_bounded.
 
+(* whatever the decoders are: a call whose tmp fits into max_length leaves _buf empty *)
+Theorem C20_clean_if_tmp_fits :
+  forall (S : Type) (dstep : S -> bytes -> Z -> S * bytes)
+         (st st' : dstate S) (ml : Z) (rd : nat) (out : bytes),
+    clean st -> 0 <= ml ->
+    decompress dstep st ml rd = Ok (st', out) ->
+    tmp_len st st' out <= ml -> clean st'.
+Proof. exact clean_if_tmp_fits. Qed.
+Print Assumptions C20_clean_if_tmp_fits.
+
 (* every state reachable from __init__ by any sequence of calls is [clean] *)
 Theorem C20_clean_reachable :
   forall (S : Type) (dstep : S -> bytes -> Z -> S * bytes) (honest : S -> Prop),
@@ -234,6 +244,22 @@ Theorem C20_toy_held_step :
     mtoy_held (fst (mtoy_dstep s c ml)) <= mtoy_held s + zlen c.
 Proof. exact mtoy_held_step. Qed.
 Print Assumptions C20_toy_held_step.
+
+Theorem C20_toy_first_stage_held_bounded :
+  forall (calls : list (Z * nat)) (s0 : toy_state) (t0 : list toy_state)
+         (us : list Z) (isz bsz : Z) (fp : bytes) (st' : dstate toy_state) (outs : bytes),
+    0 <= isz ->
+    decompress_seq mtoy_dstep (init_state (s0 :: t0) us isz bsz fp) calls = Ok (st', outs) ->
+    exists s' t', stages st' = s' :: t' /\ mtoy_held s' <= mtoy_held s0 + consumed st' /\ consumed st' <= isz.
+Proof. exact toy_first_stage_held_bounded. Qed.
+Print Assumptions C20_toy_first_stage_held_bounded.
+
+Example C20_first_stage_held_applies :
+  exists st' outs,
+    decompress_seq mtoy_dstep (init_state [toy_st 3 4 []] [1000] 9 4 [1; 2; 3; 4; 5; 6; 7; 8; 9])
+                   [(4, 9%nat); (4, 9%nat)] = Ok (st', outs) /\
+    sum_held mtoy_held (stages st') = 6 /\ consumed st' = 8.
+Proof. exact first_stage_held_applies. Qed.
 
 Theorem C20_toy_compress_live_bounded :
   forall (K : Z) (fuel : nat) ss fd bs sched ss' w n pk log,
